@@ -518,6 +518,21 @@ fn cx_dest(cx: &mut Ctx) -> usize {
     }
 }
 
+pub const C02_PROBES: &[&str] = &[
+    "record_65535", "payload_moved_with_parsed_nonempty", "held_back_header_seen", "dest_len_zero", "compress_with_stream_data",
+    "stopped_mid_stream", "into_input_checked", "early_advance", "lookahead_at_handoff", "exact_fill_read", "fed_after_done",
+    "noise_getvalues", "noise_unknown_type", "noise_foreign_begin", "noise_stale_params", "noise_huge_record", "noise_foreign_id",
+];
+pub const C18H_PROBES: &[&str] = &[
+    "noncompliant_order", "early_advance", "rejected_selection", "rejected_selection_mid_record", "held_back_header_seen",
+    "stopped_mid_stream", "into_input_checked", "dest_len_zero", "compress_with_stream_data",
+];
+pub const C05_PROBES: &[&str] = &[
+    "chain_requests_2plus", "lookahead_at_handoff", "handoff_full_buffer", "fed_after_done", "stopped_mid_stream", "held_back_header_seen",
+    "exact_fill_read", "parse0_on_full_buffer",
+];
+pub const C11S_PROBES: &[&str] = &["abort_in_stream", "held_back_header_seen"];
+#[allow(dead_code)]
 pub const D1S_PROBES: &[&str] = &[
     "record_65535", "noncompliant_order", "payload_moved_with_parsed_nonempty", "held_back_header_seen",
     "dest_len_zero", "compress_with_stream_data", "stopped_mid_stream", "into_input_checked", "abort_in_stream",
@@ -596,7 +611,7 @@ fn longest_pair(recs: &[Rec]) -> usize {
 
 /// C02 / C04-stream / C18-histories: one request, stream parser under arbitrary caller schedules.
 pub fn stream_scenario(cx: &mut Ctx, c18: bool) -> VResult {
-    cx.declare(&[], D1S_PROBES);
+    cx.declare(&[], if c18 { C18H_PROBES } else { C02_PROBES });
     let oracle = if c18 { "c18_delivery" } else { "c02_delivery" };
     let noise = cx.ch.pick(5);
     let compliant = !c18 || cx.ch.chance(1, 4);
@@ -763,7 +778,7 @@ pub fn c18_table(cx: &mut Ctx) -> VResult {
 
 /// C05: k sequential requests through the conversion chain with one shared buffer.
 pub fn c05(cx: &mut Ctx) -> VResult {
-    cx.declare(&[], D1S_PROBES);
+    cx.declare(&[], C05_PROBES);
     let k = 1 + cx.ch.weighted(&[2, 4, 3, 1]);
     if k >= 2 { cx.probe("chain_requests_2plus"); }
     let noise = cx.ch.pick(4);
@@ -883,7 +898,7 @@ pub fn c05(cx: &mut Ctx) -> VResult {
 
 /// C11 (sync part): abort in the stream phase is reported, sticky, and skipped by the next request parser.
 pub fn c11_sync(cx: &mut Ctx) -> VResult {
-    cx.declare(&[], D1S_PROBES);
+    cx.declare(&[], C11S_PROBES);
     let noise = cx.ch.pick(3);
     let rc = gen_request(cx, noise, 40, 24, true, false, Phase::Either);
     // insert an AbortRequest (own id) after a random record of the stream phase
